@@ -200,3 +200,24 @@ def strip_int(e):
             e.func.id in ("int", "float") and len(e.args) == 1:
         e = e.args[0]
     return e
+
+
+def truthiness_flags(fnode, sn) -> set:
+    """Attributes of `sn` (self) that the function tests for truthiness in an
+    if / conditional expression (mode switches such as `self.missing_values`,
+    `not self.sparse_rqa`), as opposed to attributes whose value is compared."""
+    fl = set()
+
+    def truth(e):
+        if isinstance(e, ast.Attribute) and isinstance(e.value, ast.Name) and \
+                e.value.id == sn:
+            fl.add(e.attr)
+        elif isinstance(e, ast.UnaryOp) and isinstance(e.op, ast.Not):
+            truth(e.operand)
+        elif isinstance(e, ast.BoolOp):
+            for v in e.values:
+                truth(v)
+    for n in ast.walk(fnode):
+        if isinstance(n, (ast.If, ast.IfExp)):
+            truth(n.test)
+    return fl
